@@ -301,6 +301,11 @@ func (e *Encoder) loopHeader(fr *frame, li *loopInfo, reach *Term, stIn *State) 
 			if cl.Loop != li.idx {
 				continue
 			}
+			if cl.Slow && !thoroughTier {
+				// a ~ invariant is neither proved nor assumed in the quick tier
+				skippedSlow++
+				continue
+			}
 			env := e.contractEnv(fr, ct, nil, stH, e.entryOr(stIn))
 			env.loop = li
 			li.initMap = ls.initMap
